@@ -91,6 +91,12 @@ class C20(Check):
                     if not q:
                         js.append(dict(kind='long', poly=name, leg=leg, api='mapOnTrack'))
                     js.append(dict(kind='long', poly=name, leg=leg, api='mapOnTrack(track)'))
+        # value-kind probes (polyline given as numpy arrays, query point as numpy scalars) and leftover-state probe (the reference track moved in place between two projections)
+        for name, leg in (('spiral', 0), ('spiral', 7), ('outback', 10)):
+            js.append(dict(kind='long', poly=name, leg=leg, api='proj_polyligne', vk='np'))
+            js.append(dict(kind='long', poly=name, leg=leg, api='proj_polyligne', vk='npq'))
+        for name, leg in (('spiral', 7), ('outback', 3)):
+            js.append(dict(kind='long', poly=name, leg=leg, api='mapOnTrack', moved=[1.5, 3.0]))
         if tier != 'quick':
             js.insert(0, dict(kind='fp_axis'))      # bit-precise (IEEE binary64) probe of the inclusion test on horizontal segments, decided by cvc5
         return js
@@ -119,6 +125,17 @@ class C20(Check):
                 X.append(X[-1] + dx)
                 Y.append(Y[-1] + dy)
             x0, x1, y0, y1 = LONGBOXES[job['poly']][job['leg']]
+            if job.get('moved'):
+                X, Y = [v + job['moved'][0] for v in X], [v + job['moved'][1] for v in Y]
+                x0, x1, y0, y1 = x0 + job['moved'][0], x1 + job['moved'][0], y0 + job['moved'][1], y1 + job['moved'][1]
+            if job.get('vk'):       # numpy values cannot be symbolic: the query point is one of 5 x 5 grid points of the box (a path each)
+                import numpy as np
+                ix = eng.choice('ix', 5) if sym else int(inp['ix'])
+                iy = eng.choice('iy', 5) if sym else int(inp['iy'])
+                qx, qy = x0 + (x1 - x0) * (ix + 0.5) / 5.0, y0 + (y1 - y0) * (iy + 0.5) / 5.0
+                if job['vk'] == 'np':
+                    return np.array(X), np.array(Y), np.float64(qx), np.float64(qy)
+                return X, Y, np.float64(qx), np.float64(qy)
             if sym:
                 return X, Y, eng.real('px', x0, x1), eng.real('py', y0, y1)
             return X, Y, float(inp['px']), float(inp['py'])
@@ -134,10 +151,18 @@ class C20(Check):
             d, xp, yp = geo.proj_segment([X[0], Y[0], X[1], Y[1]], px, py)
             return d, xp, yp, 0
         if job['api'] == 'proj_polyligne':
-            return geo.proj_polyligne(list(X), list(Y), px, py)
+            return geo.proj_polyligne(X if job.get('vk') == 'np' else list(X), Y if job.get('vk') == 'np' else list(Y), px, py)
         from tracklib.core import Track, Obs, ENUCoords, ObsTime
         mp = sys.modules[MAP]
-        tr = Track([Obs(ENUCoords(X[i], Y[i], 0.0), ObsTime.readUnixTime(float(i))) for i in range(len(X))])
+        if job.get('moved'):
+            dx, dy = job['moved']
+            tr = Track([Obs(ENUCoords(X[i] - dx, Y[i] - dy, 0.0), ObsTime.readUnixTime(float(i))) for i in range(len(X))])
+            mp.mapOnTrack(ENUCoords(X[0] - dx + 0.5, Y[0] - dy + 0.5, 0.0), tr)       # first projection on the reference where it was ...
+            for i in range(len(X)):                                                   # ... then the caller moves the same Track object in place
+                tr.getObs(i).position.setX(X[i])
+                tr.getObs(i).position.setY(Y[i])
+        else:
+            tr = Track([Obs(ENUCoords(X[i], Y[i], 0.0), ObsTime.readUnixTime(float(i))) for i in range(len(X))])
         if job['api'] == 'mapOnTrack(track)':
             # track mode: a first observation at the start of the reference, then the query point; the second result is judged
             fx, fy = LONGFIRST.get(job['poly'], {}).get(job['leg'], (X[0] + 0.25, Y[0] + 0.25))
@@ -243,7 +268,9 @@ class C20(Check):
             # sound concrete pruning: U bounds the distance from any admissible query point to a vertex of the polyline (so, once 'no closer point'
             # is proved for the legs kept, d <= U); a leg whose bounding box is farther than U from the query box cannot carry a closer point
             x0, x1, y0, y1 = LONGBOXES[job['poly']][job['leg']]
-            vx, vy = X[job['leg']], Y[job['leg']]
+            if job.get('moved'):
+                x0, x1, y0, y1 = x0 + job['moved'][0], x1 + job['moved'][0], y0 + job['moved'][1], y1 + job['moved'][1]
+            vx, vy = float(X[job['leg']]), float(Y[job['leg']])
             U = max(math.hypot(cx - vx, cy - vy) for cx in (x0, x1) for cy in (y0, y1))
             for j in range(n):
                 gapx = max(0.0, min(X[j], X[j + 1]) - x1, x0 - max(X[j], X[j + 1]))
